@@ -98,3 +98,78 @@ def raw_nodes(expr):
         yield expr, 'contents', c_i, c
         if isinstance(c, TexExpr) and not isinstance(c, TexText):
             yield from raw_nodes(c)
+
+
+# inputs that exposed a defect once (DESIGN section 5); always replayed
+WITNESSES = [
+    'a}\x00', '\x7f', '{a}\x00$x$ tail', '\\', '\\def\\', '\\item\\',
+    '\\begin{verbatim}', '$\\left.|x$', '$\\left.|$', '\\big.|',
+    '\\begin{itemize}\\item a\n\\item b [0,1) c\\end{itemize}',
+    '\\begin{center}x\\end{center}[', '\\begin{center}x\\end{center}{y}[z',
+    '\\begin{math}x\\end{math}{\\begin{itemize}\\item a\\end{itemize}}',
+    '\\begin{verbatim}\n{ code }\n\\end{verbatim}',
+    '\\begin{verbatim} [x]\\end{verbatim}',
+    '\\begin[a]x\\end{a}', '\\begin[', '\\begin{a}x\\end {a}y',
+    '\\begin{a}x\\end\n{a}y', '$a$$$b$$', '$a$$b$', '\\begin{a }x\\end{a}',
+    '\\begin{ a}x\\end{a}', 'a\nb', '\\newcommand{\\x} [1]{y}',
+    '\\newcommand{\\x}[1] {\\begin{a}}', '\\foo{a} [b]', '\\item[', '{\\',
+    '\\begin{a}\\f{\\begin{a}\\f{x}\\end{a}}\\end{a}',
+]
+
+
+def string_cases(tier, seed, want, tag, sizing=False, hostile=False,
+                 scale=1.0):
+    """W2b + W3 + spaced W1: arbitrary strings (well-formed or not) inside the
+    input domain of C08/C16 (side conditions asserted on the text), as
+    {'s': ..., 'w': workload}.  With hostile=True the NUL/DEL/bare-signature
+    tokens are included and no side condition is applied (C07a, C06)."""
+    import random as _r
+    from tsv.gen import strgen, mutgen
+    q = tier == 'quick'
+    k = 0
+
+    def ok(s):
+        return hostile or strgen.side_conditions_ok(s, sizing)
+    for s in WITNESSES:
+        k += 1
+        if want(k) and ok(s):
+            yield k, {'s': s, 'w': 'witness'}
+    L = 2 if q else 3
+    for k2, tup in strgen.enum_strings(strgen.TOKENS, 1, L, start_k=k):
+        if want(k2):
+            s = ''.join(tup)
+            if ok(s):
+                yield k2, {'s': s, 'w': 'tokens'}
+    k += strgen.count_strings(strgen.TOKENS, 1, L)
+    toks = strgen.TOKENS + (strgen.HOSTILE_TOKENS if hostile else [])
+    for j in range(int((40000 if q else 800000) * scale)):
+        k += 1
+        if want(k):
+            rng = _r.Random('%d/%d/%s/r' % (seed, j, tag))
+            s = strgen.random_string(rng, toks, L + 1, 4 if (q and j % 2) else 14)
+            if ok(s):
+                yield k, {'s': s, 'w': 'tokens-sampled'}
+    for origin, src in corpus.documents():
+        k += 1
+        if want(k) and ok(src):
+            yield k, {'s': src, 'w': 'corpus'}
+    for j in range(int((8 if q else 400) * scale)):
+        rng = _r.Random('%d/%d/%s/d' % (seed, j, tag))
+        src, _ = docgen.gen_doc(rng, cfg_general(j, 'quick'))
+        src = src[:220]
+        for kind, m in mutgen.faults(src, rng, ins_per_pos=1):
+            k += 1
+            if want(k) and ok(m):
+                yield k, {'s': m, 'w': 'fault:' + kind}
+    for j in range(int((2500 if q else 80000) * scale)):
+        k += 1
+        if want(k):
+            rng = _r.Random('%d/%d/%s/s' % (seed, j, tag))
+            src, ast = docgen.gen_doc(rng, cfg_general(j, tier))
+            if j % 3:
+                src = docgen.render_spaced(ast, rng)
+                w = 'spaced-doc'
+            else:
+                w = 'doc'
+            if ok(src):
+                yield k, {'s': src, 'w': w}
